@@ -78,9 +78,10 @@ def job(cfg):
     wt = cfg["wt"]
     n, na, nb = (3, 1, 1) if wt == "restricted" else (3, 2, 1)
     sysd = samplers.system(n, na, nb, 1, cfg["seed"], wt, scale=0.7, spin_dep=(wt == "unrestricted"))
-    # thorough: 5 field positions where one comb offset is drawn per block (486 streams), 4 where two are (324 streams);
-    # 5 positions x 4 offset words (972 streams x 6 entries x 2 batch counts x 2 estimate letters) took > 100 min per cell
-    D = 4 if (not thorough or cfg["n_sr"] == 2) else 5
+    # 4 field positions in both tiers (162-324 streams per cell).  A fifth position (486-972 streams) did not complete:
+    # the stream tables are baked into every compiled entry point as constants and compile time, not run time, explodes
+    # (> 100 min per cell); the thorough tier therefore widens the block-structure and driver matrices instead.
+    D = 4
     tn, tu, S = make_tables(cfg, D)
     vr = vrng.install(tn, tu)
     L = samplers.lib()
@@ -392,7 +393,7 @@ class _Collector:
 def run(ctx):
     ctx.rule = ("cells = walker type {restricted+rhf, unrestricted+uhf} x block structure (n_steps,n_ene,n_sr) in {1,2}^3 (4 of 8 in quick) "
                 "x n_batch {1,2} x entry point {plain, ad, ad_norot, ad_nosr, ad_nosr_norot, 2-RDM ad_1}; inside each cell EVERY stream of the "
-                "virtual random source: all words over field letters {0,+-1.7} on D=4 (thorough: 5 where n_sr=1) draw positions spread over the blocks x "
+                "virtual random source: all words over field letters {0,+-1.7} on D=4 draw positions spread over the blocks x "
                 "all words over comb-offset letters {0.2,0.8}; state = (cell, stream); non-trivial distinct = distinct block energies; "
                 "driver.afqmc itself over the option matrix ad_mode x orbital_rotation x do_sr x walker_type; the file route options -> _prep_afqmc -> driver.afqmc with the real jax.random for seeds {0,1,7} x 2 repetitions + a direct driver run")
     ctx.assume("random numbers are owned by rebinding the `random` name of ad_afqmc.sampling/propagation/driver; draw positions beyond D carry a fixed non-trivial filler")
